@@ -15,8 +15,8 @@ META = {
                    'centres/radii/angles in order, radial = inverse(scale(r).then(translate(center))), linear depends on both end points and '
                    'the length with a separate zero-length arm, sweep translates by -center); choose_shader forwards every gradient payload '
                    'to its shader constructor slot by slot with the matrix ti.then(source transform) and the global alpha (R03.5).',
-    'decides': ['R12.1 half-pixel offset and make_*source argument order', 'R12.2 matrix field mapping', 'R12.3 constructor and dispatch plumbing', 'R03.5 alpha reaches the gradient table', 'R11.2 matrix = inverse CTM then source transform'],
-    'does_not_decide': ['the value of t, LUT interpolation, spread arithmetic, tolerances (all inside sw-composite)', 'numeric correctness of the linear-gradient rotation matrix'],
+    'decides': ['R12.1 half-pixel offset and make_*source argument order', 'R12.2 matrix field mapping', 'R12.3 constructor and dispatch plumbing', 'R03.5 alpha reaches the gradient table', 'R11.2 matrix = inverse CTM then source transform', 'R12.6 (dependency sw-composite) the sweep gradient parameter is 0 at the start angle and 1 at the end angle: rational identities over make_sweep_source and SweepGradientSource::eval (known finding D28: t(start) != 0)'],
+    'does_not_decide': ['the value of t for linear/radial/two-circle gradients, LUT interpolation, spread arithmetic, tolerances (inside sw-composite; only the sweep parametrisation is read, R12.6)', 'numeric correctness of the linear-gradient rotation matrix'],
     'assumptions': ['sw_composite Gradient::make_source / make_two_circle_source / make_sweep_source and the *_eval functions implement the documented gradients (external)',
                     'MatrixFixedPoint{xx,xy,yx,yy,x0,y0}.transform(x,y) = (xx*x + xy*y + x0, yx*x + yy*y + y0), matching euclid row-vector convention m11,m21,m31 / m12,m22,m32 (read from sw-composite 0.7.16 source)'],
     'trusted_base': ['sw-composite 0.7.16', 'euclid 0.22.14'],
@@ -107,7 +107,7 @@ def r12_1(ctx):
                 ok = is_self_field(g, 'gradient')
                 xa = strip_casts(v[2][1], ('IntToInt',))
                 ya = strip_casts(v[2][2], ('IntToInt',))
-                ok = ok and ya == P(3) and xa[0] == 'phi' and xa[1] == 2 and is_self_field(strip_all(v[2][3]), 'spread')
+                ok = ok and ya == P(3) and xa[0] == 'phi' and is_self_field(strip_all(v[2][3]), 'spread')
                 if ok:
                     incs = [san.def_term(san.defs[i]) for i in xa[2]]
                     ok = any(t == P(2) for t in incs) and any(t[0] == 'bin' and t[1] == 'Add' and const_val(t[3]) == 1 for t in incs)
@@ -339,4 +339,5 @@ _r18_1b.__name__ = 'r18_1b'
 
 def run(ctx):
     import engine
-    engine.run_rules(ctx, [r12_1, r12_2, r12_3, r12_6, dt.r03_5, dt.r02_6, _r18_1b])
+    import props.c11 as c11
+    engine.run_rules(ctx, [r12_1, r12_2, r12_3, r12_6, dt.r03_5, dt.r02_6, _r18_1b, c11.r11_2, dt.r06_5])
